@@ -118,7 +118,10 @@ Fixpoint subseq (l big : list key) : bool :=
 Definition follows (h : handler) (s : st) (r : result) : bool :=
   let '(o, s', ks) := r in
   subseq ks (handler_keys h) &&
-  existsb (state_eqb (s_state s')) (s_state s :: handler_sets h).
+  (state_eqb (s_state s') (s_state s) || existsb (state_eqb (s_state s')) (handler_sets h)).
+
+Lemma state_eqb_refl : forall x, state_eqb x x = true.
+Proof. intro x. unfold state_eqb. apply Z.eqb_refl. Qed.
 
 Lemma model_follows_skeleton : forall h c s m, follows h s (run_handler h c s m) = true.
 Proof.
@@ -132,5 +135,7 @@ Proof.
     repeat match goal with
     | |- context [if ?b then _ else _] => destruct b
     end;
-    destruct x; reflexivity.
+    unfold follows; apply andb_true_iff; (split; [reflexivity |]);
+    apply orb_true_iff; cbn [s_state];
+    first [left; apply state_eqb_refl | right; reflexivity].
 Qed.
